@@ -162,6 +162,22 @@ def build(desc, include_source=False, per_case_timeout=20.0):
         return ('exc', type(e).__name__, (str(e) or '')[:300])
 
 
+OBJPROTO = False      # set per case (cfg objproto): also exercise the value protocol of every instance in a result
+
+
+def _objproto(mod, v):
+    """Every class instance of a result can be taken apart and rebuilt through its documented value protocol
+    (_asdict, _replace with every field by keyword, transform with the identity) - whatever its fields are called."""
+    for n in mod.visit(v):
+        d = n._asdict()
+        if list(d) != list(type(n)._fields):
+            raise AssertionError('_asdict() keys %r differ from the fields %r' % (list(d), list(type(n)._fields)))
+        if d and not (n._replace(**d) == n):
+            raise AssertionError('_replace(**_asdict()) differs from the object')
+    if not (mod.transform(v, lambda x: x) == v):
+        raise AssertionError('transform with the identity differs from the value')
+
+
 def call_parse(mod, fn, text, pos, full, spans=False, per_case_timeout=5.0):
     """Observe one parse call.
     -> ['ok', value, end] | ['fail', index, line, col] | ['exc', type, msg] | ['timeout']
@@ -171,6 +187,8 @@ def call_parse(mod, fn, text, pos, full, spans=False, per_case_timeout=5.0):
         with timeout(per_case_timeout):
             try:
                 v = fn(text, pos, full)
+                if OBJPROTO:
+                    _objproto(mod, v)
                 return ['ok', project(v, spans), len(text) if full else -1, 'ret']
             except mod.PartialParseError as e:
                 lp = e.last_position
